@@ -28,14 +28,17 @@ def run(tier):
     corpus = [(name, p, root, render(p, root)) for name, p, root in gen_loops.loops()]
     only = os.environ.get("VERIF_C11_ONLY")
     if only:
-        corpus = [c for c in corpus if c[0] == only.replace("@thread", "").replace("@fresh", "").replace("@resumed", "")]
+        corpus = [c for c in corpus if c[0] == only.replace("@thread2", "").replace("@thread", "").replace("@fresh", "").replace("@resumed", "")]
     # every program also runs in a state made by NewThread with the context attached to that state, and - when it
     # needs no library - as the very first call on a state on which nothing has run before
     LIBNAMES = ("pcall", "xpcall", "error", "coroutine", "setmetatable", "select", "type", "tostring", "ipairs", "pairs", "unpack", "string", "table", "math")
     nolib = [c for c in corpus if not any(nd.get("k") == "id" and nd.get("n") in LIBNAMES for nd in c[1].nodes[1:])]
     # ... and as the body of a thread that alone has the context, driven with Resume by a state that has none
+    # ... and in such a thread whose creator has a context of its own (programs with coroutines: the threads they create
+    # must follow the thread's own context, not the one it inherited)
     corpus = corpus + [(name + "@thread", p, root, src) for name, p, root, src in corpus] + [(name + "@fresh", p, root, src) for name, p, root, src in nolib] \
-        + [(name + "@resumed", p, root, src) for name, p, root, src in corpus if "swap" not in name]
+        + [(name + "@resumed", p, root, src) for name, p, root, src in corpus if "swap" not in name] \
+        + [(name + "@thread2", p, root, src) for name, p, root, src in corpus if "coroutine" in src and "swap" not in name]
     runs, index = [], {}
     for ci, (name, p, root, src) in enumerate(corpus):
         for k in range(1, K + 1):
@@ -44,6 +47,8 @@ def run(tier):
             run = {"id": rid, "src": src, "fault": {"mode": "cancel", "k": k}, "budget": 200000}
             if name.endswith("@thread"):
                 run["opts"] = {"thread": True}
+            if name.endswith("@thread2"):
+                run["opts"] = {"thread": True, "parentctx": True}
             if name.endswith("@fresh"):
                 run["opts"] = {"fresh": True}
             if name.endswith("@resumed"):
@@ -142,6 +147,11 @@ def run(tier):
     cops = [gen_co.script_program(crng) for _ in range(1200 if thorough else 300)] + list(gen_co.fixed_programs())
     for cp, croot in cops:
         progs.append({"id": len(progs) + 1, "fam": "ctx-co", "root": croot, "nodes": cp.nodes[1:], "src": render(cp, croot)})
+    # coroutines (created and wrapped, at nesting depth 1..3) that outlive the coroutine that made them - finished, failed
+    # or left suspended - and are driven afterwards: their contexts derive from the attached one, not from their maker's
+    import c12_progs
+    for name, src in sorted(c12_progs.orphan_programs().items()):
+        progs.append({"id": len(progs) + 1, "fam": "ctx-orphan", "src": src})
     with_ctx = lsem.run_real(progs, "c11ctx")
     without = lsem.run_real([dict(p, opts={"noctx": True}) for p in progs], "c11noctx")
     same = 0
